@@ -145,6 +145,8 @@ func payloads() []payload {
 		{"unicode-spaces-inside", "S1E\u3000\u3000S2E\u2003S3E\u202fx", 3, "", false, "S1E\u3000\u3000S2E\u2003S3E\u202fx"},
 		// a CDATA section FIRST and ordinary character data behind it: the escapes behind it are character data like anywhere else
 		{"cdata-first-then-escaped-markup", "<![CDATA[S1E]]> &lt;u&gt;S2E&lt;/u&gt; S3E", 3, "<u>S2E</u>", false, ""},
+		// … and between TWO sections of the author's (the content starts and ends with one)
+		{"escaped-markup-between-two-cdata", "<![CDATA[S1E]]> &lt;u&gt;S2E&lt;/u&gt; &amp;lt; <![CDATA[S3E]]>", 3, "<u>S2E</u>", false, "&amp;lt;"},
 		{"cdata-first-then-amp-entity", "<![CDATA[S1E]]> S2E &amp;lt; &amp;amp; S3E", 3, "", false, "&amp;lt; &amp;amp;"},
 		{"link", `S1E <a href="http://x/l?a=1&amp;b=2">S2E</a>`, 2, "", true, ""},
 		{"escaped-markup", "&lt;b&gt;S1E&lt;/b&gt;", 1, "<b>S1E</b>", false, ""},
